@@ -11,6 +11,8 @@ def run(ctx):
     CM.finding_replay(ctx, "C05")
     packing.model(ctx)
     packing.grid(ctx, "C05", sorted(set(range(512, 1501, 24)) | {512, 513, 576, 600, 1280, 1472, 1499, 1500} | set(range(1090, 1101))) if ctx.quick else list(range(512, 1501)))
+    if not ctx.quick:
+        J.schedule_sweep(ctx, "C05", True)
     J.run_scenarios(ctx, "C05", scenarios(ctx))
 
 
